@@ -313,6 +313,27 @@ func (ex *Exec) cborUnmarshal(raw Value, target Value, fr *Frame, pos token.Pos)
 	return IfaceV{}
 }
 
+// cborIsEmpty: the encoder's notion of empty for omitempty (concrete values only; a symbolic value counts as present)
+func cborIsEmpty(v Value) bool {
+	switch x := v.(type) {
+	case nil:
+		return true
+	case *Term:
+		return x.conc && x.sort != SFP && x.cv == 0
+	case StrV:
+		return x.sym == nil && x.s == ""
+	case IfaceV:
+		return x.typ == nil
+	case Ptr:
+		return x.c == nil
+	case SliceV:
+		return x.n == 0
+	case *MapObj:
+		return x == nil || len(x.entries) == 0
+	}
+	return false
+}
+
 func cborFieldName(st *types.Struct, i int) string {
 	tag := reflect.StructTag(st.Tag(i)).Get("cbor")
 	if tag != "" {
@@ -486,6 +507,10 @@ func (ex *Exec) decodeInto(target *Cell, src IfaceV, fr *Frame) string {
 			get = func(name string) (IfaceV, bool) {
 				for i := 0; i < sst.NumFields(); i++ {
 					if cborFieldName(sst, i) == name {
+						// omitempty: an empty value is not on the wire, the receiver's field keeps what it had
+						if strings.Contains(reflect.StructTag(sst.Tag(i)).Get("cbor"), ",omitempty") && cborIsEmpty(sv[i]) {
+							return IfaceV{}, false
+						}
 						return ex.asIface(sv[i], sst.Field(i).Type()), true
 					}
 				}
